@@ -794,8 +794,501 @@ class C12:
         return 0
 
 
+
+def sched_preemption_check(dump, bound):
+    """On one END dump: every Schedule entry respects the bound, and the stored
+    preemption count equals an independent count of 'switches away from a thread
+    that could have continued'."""
+    entries = [e for e in parse_dump(dump)["entries"] if e["k"] == "S"]
+    count = 0
+    prev_active = 0          # the main thread runs first
+    for k, e in enumerate(entries):
+        th = e["th"]
+        active = th.find("A")
+        pre = int(e["pre"])
+        cur = pre + (1 if e["ia"] != "-" and int(e["ia"]) != active else 0)
+        if bound is not None and cur > bound:
+            return f"schedule entry {k} has {cur} preemptions > bound {bound}"
+        if prev_active is not None and active != -1 and active != prev_active and th[prev_active] in "ASPV":
+            count += 1
+        # loom also counts the choice of a non-default thread after the running
+        # thread blocked, so its count is an upper bound of the independent one
+        if active != -1 and count > cur:
+            return f"schedule entry {k}: stored preemption count {cur} but {count} switches away from a runnable thread in the trace"
+        if active != -1:
+            prev_active = active
+    return None
+
+
+class C15:
+    level = "proof"
+    design_ref = "DESIGN.md section 8, C15"
+    technique = "Coq proof (preemption-bound invariant of the Path API and of every model iteration) + component replay + independent preemption count on the implementation's dumps + outcome-set monotonicity oracle"
+    level_text = ("Proved: c15_inv (every Schedule entry has preemptions() <= bound, and an entry at the bound holds no pending alternative) is preserved by every Path API function and by step, "
+                  "and by every iteration of the model L (ExecFacts.L_preemptions_le_bound). The count is validated against an independent definition on the implementation's own stacks; "
+                  "'found with bound n => found unbounded', monotonicity in n and equality for n >= program size are compared on the bounded-exhaustive core (not proved: they need DPOR completeness).")
+    level_note = "partial: monotonicity/completeness of the bounded result sets are oracle-checked, not theorems"
+    assumptions = ["theorems are about the Coq model; tie = component replay of rt/path.rs and whole-run correspondence with preemption bounds 0..n",
+                   "the independent preemption count uses the thread statuses stored in the Schedule entries"]
+
+    def run(self, ctx):
+        res = {"coverage": {}, "violations": [], "broken": [], "known": []}
+        base = gen.fam_bound_core(ctx.tier)
+        bounds = [0, 1, 2, 3] if ctx.tier == "quick" else [0, 1, 2, 3, 4, 5, 6]
+        lines = []
+        idx = {}
+        for b in base:
+            for n in bounds + [None]:
+                idx[(norm_prog(b), n)] = len(lines)
+                lines.append(gen.with_cfg(b, pb=n))
+        extra = gen.family_random(ctx.seed, 60 if ctx.tier == "quick" else 600, list("AMNH"), nthreads=(2, 3), maxops=3, prefix="c15r", pb=ctx.seed % 3)
+        fam = FamilyRun(ctx, lines + extra, "c15")
+        mism, rstats = fam.replay_mismatches()
+        if mism:
+            res["broken"].append("component replay of rt/path.rs with a preemption bound: " + mism[0])
+        wm = fam.whole_run_mismatches()
+        if wm:
+            m = wm[0]
+            res["broken"].append(f"correspondence L vs implementation: `{m.get('prog')}` iteration {m.get('iteration')}: impl `{str(m.get('impl'))[:150]}` model `{str(m.get('model'))[:150]}`")
+        ndumps = 0
+        keys = {}
+        all_lines = lines + extra
+        for i, p in fam.parsed.items():
+            bstr = all_lines[i].split("|")[1].split("pb=")[1].split()[0]
+            bound = None if bstr == "-" else int(bstr)
+            for n, it in enumerate(p["iterations"]):
+                if it["end"]:
+                    ndumps += 1
+                    why = sched_preemption_check(it["end"], bound)
+                    if why:
+                        res["violations"].append({"prog": all_lines[i], "iteration": n + 1, "deviation": "preemptions:" + why})
+                        break
+            keys[i] = impl_keys(p)
+        nmono = 0
+        for b in base:
+            nb = norm_prog(b)
+            # program size = number of instructions
+            size = sum(len([o for o in body.split(";") if o.strip()]) for body in b.split("|")[3:])
+            un = idx[(nb_cfg(b, None), None)] if False else idx[(nb, None)]
+            if un not in keys:
+                continue
+            ukeys, ufinal = keys[un]
+            prevk = None
+            for n in bounds:
+                j = idx[(nb, n)]
+                if j not in keys:
+                    prevk = None
+                    continue
+                k, fin = keys[j]
+                nmono += 1
+                if ufinal == "ok" and fin == "ok":
+                    extra_k = {x for x in k if x not in ukeys}
+                    if extra_k:
+                        res["violations"].append({"prog": lines[j], "deviation": "bounded-result-not-in-unbounded:" + sorted(extra_k)[0]})
+                    if prevk is not None and not prevk <= k:
+                        res["violations"].append({"prog": lines[j], "deviation": f"not-monotone: a result found with bound {n - 1} is missing with bound {n}: " + sorted(prevk - k)[0]})
+                    if n >= size and k != ukeys:
+                        res["violations"].append({"prog": lines[j], "deviation": f"bound {n} >= program size {size} but the result set differs from the unbounded one"})
+                    prevk = k
+                else:
+                    prevk = None
+        known = Known(ctx.root, ctx.pid)
+        kept = []
+        for v in res["violations"]:
+            if known.match(v["prog"], v["deviation"]):
+                continue
+            kept.append(v)
+        res["violations"] = kept
+        res["known"] = known.lines()
+        st = fam.stats()
+        res["coverage"] = {
+            "programs": st["programs"], "iterations": st["iterations"], "api_calls_replayed": rstats.get("api_calls", 0),
+            "dumps_checked_for_preemption_count": ndumps, "bound_pairs_compared": nmono, "bounds": [str(b) for b in bounds] + ["unbounded"],
+            "disagreements_checked": len(mism) + len(wm),
+            "evaluations": st["iterations"], "distinct_nontrivial": len({norm_prog(l) for l in all_lines}),
+            "rule": "bounded-exhaustive sync/atomic core x preemption bounds 0..n and unbounded, plus seeded random programs with a bound; distinct = program text with its configuration",
+            "samples": sample_programs(lines), "outcomes": st["outcomes"],
+        }
+        ctx.cleanup()
+        return res
+
+    def replay(self, ctx, path):
+        print(open(path).read())
+        return 0
+
+
+def nb_cfg(b, n):
+    return norm_prog(b)
+
+
+
+def frozen_check(parsed):
+    """Non-exploring entries keep their decision while they stay on the stack:
+    between consecutive iterations, an entry with ex=0 that survives (same
+    position, the prefix before it unchanged) has the same choice."""
+    prev = None
+    for n, it in enumerate(parsed["iterations"]):
+        if not it["end"]:
+            continue
+        cur = parse_dump(it["end"])["entries"]
+        if prev is not None:
+            k = 0
+            while k < min(len(prev), len(cur)) and choice_of(prev[k]) == choice_of(cur[k]):
+                k += 1
+            # position k is where the decision sequences part ways: it must be an exploring entry
+            if k < min(len(prev), len(cur)) and prev[k].get("ex") == "0":
+                return f"iteration {n + 1}: the decision at position {k} changed although that entry was created with exploration disabled"
+        prev = cur
+    return None
+
+
+class C19:
+    level = "proof"
+    design_ref = "DESIGN.md section 8, C19"
+    technique = "Coq proof (non-exploring entries are frozen; control calls only move the exploring/skipping flags; limit arithmetic of Builder::check) + component replay + subset/limit checks on the implementation"
+    level_text = ("Proved: step never advances and backtrack never marks an entry created with exploration disabled; new entries inherit the current flag; stop_exploring/explore/skip_branch "
+                  "change only the flags (and panic exactly in the documented misuse cases); the branch limit is reported at the first branch beyond max_branches; max_permutations stops the loop "
+                  "only at a checkpoint boundary and returns normally (CheckFacts). On the implementation: component replay of every control call, decisions at non-exploring positions never "
+                  "change, the restricted result set is a subset of the unrestricted one, limit values need-1 / need behave as documented.")
+    level_note = "partial: 'decisions outside the region are still fully explored' is not a theorem (completeness)"
+    assumptions = ["theorems are about the Coq model; tie = component replay of rt/path.rs incl. explore_state/critical/skip_branch and whole-run correspondence"]
+
+    def run(self, ctx):
+        res = {"coverage": {}, "violations": [], "broken": [], "known": []}
+        ctl = gen.fam_ctl_core(ctx.tier)
+        plain = [gen.strip_controls(l) for l in ctl]
+        # limits: programs run with max_branches around their exact need, max_threads, max_permutations
+        limit_base = gen.fam_bound_core("quick")[::9][:20]
+        lines = ctl + plain + limit_base
+        fam = FamilyRun(ctx, lines, "c19")
+        mism, rstats = fam.replay_mismatches()
+        if mism:
+            res["broken"].append("component replay of rt/path.rs (controls): " + mism[0])
+        wm = fam.whole_run_mismatches()
+        if wm:
+            m = wm[0]
+            res["broken"].append(f"correspondence L vs implementation: `{m.get('prog')}` iteration {m.get('iteration')}: impl `{str(m.get('impl'))[:150]}` model `{str(m.get('model'))[:150]}`")
+        nfrozen = nsub = 0
+        for i in range(len(ctl)):
+            if i not in fam.parsed or (len(ctl) + i) not in fam.parsed:
+                continue
+            p = fam.parsed[i]
+            why = frozen_check(p)
+            nfrozen += 1
+            if why:
+                res["violations"].append({"prog": lines[i], "deviation": "frozen:" + why})
+            k, fin = impl_keys(p)
+            ku, finu = impl_keys(fam.parsed[len(ctl) + i])
+            nsub += 1
+            run = p["run"] or ""
+            misuse = lines[i].startswith("ctX")
+            if misuse:
+                want = "not in critical state" if " ex " in lines[i].split("|")[3] + " " and "sx" not in lines[i] else "not in exploring state"
+                if want not in run:
+                    res["violations"].append({"prog": lines[i], "deviation": f"misuse-not-reported: expected panic `{want}`, run ended `{run}`"})
+                continue
+            if fin != "ok" and finu == "ok":
+                res["violations"].append({"prog": lines[i], "deviation": "control-calls-introduce-failure:" + fin})
+            if finu == "ok":
+                bad = sorted(x for x in k if x.startswith("ok|") and strip_ctl_key(x, lines[i]) not in ku)
+                if bad:
+                    res["violations"].append({"prog": lines[i], "deviation": "restricted-result-not-in-unrestricted:" + bad[0]})
+        # limits
+        lim_lines = []
+        lim_expect = []
+        for j, b in enumerate(limit_base):
+            pi = fam.parsed.get(len(ctl) + len(plain) + j)
+            if not pi or not (pi["run"] or "").startswith("ok"):
+                continue
+            need = max(len(parse_dump(it["end"])["entries"]) for it in pi["iterations"] if it["end"])
+            iters = len(pi["iterations"])
+            lim_lines.append(gen.with_cfg(b, mb=need)); lim_expect.append(("ok", iters))
+            lim_lines.append(gen.with_cfg(b, mb=need - 1)); lim_expect.append(("branchlimit", None))
+            nth = len(b.split("|")) - 3
+            lim_lines.append(gen.with_cfg(b, mt=nth)); lim_expect.append(("ok", iters))
+            if nth > 1:
+                lim_lines.append(gen.with_cfg(b, mt=nth - 1)); lim_expect.append(("maxthreads", None))
+            for mp, ci in ((1, 1), (2, 1), (3, 2), (2, 5), (iters + 5, 1)):
+                # iterations run = (first boundary b >= mp with b % ci == 0) - 1, capped by the total
+                bnd = ((max(mp, 1) + ci - 1) // ci) * ci
+                lim_lines.append(gen.with_cfg(b, mp=mp, ci=ci)); lim_expect.append(("ok", min(iters, bnd - 1)))
+        fam2 = FamilyRun(ctx, lim_lines, "c19lim") if lim_lines else None
+        nlim = 0
+        if fam2:
+            wm2 = fam2.whole_run_mismatches()
+            if wm2:
+                m = wm2[0]
+                res["broken"].append(f"correspondence L vs implementation (limits): `{m.get('prog')}`: impl `{str(m.get('impl'))[:150]}` model `{str(m.get('model'))[:150]}`")
+            for i, p in fam2.parsed.items():
+                kind, iters = lim_expect[i]
+                run = p["run"] or ""
+                nlim += 1
+                if kind == "ok":
+                    if not run.startswith("ok") or int(run.split("iters=")[1].split()[0]) != iters:
+                        res["violations"].append({"prog": lim_lines[i], "deviation": f"limit: expected a normal return after {iters} iterations, got `{run}`"})
+                elif kind == "branchlimit":
+                    if "branchlimit" not in run:
+                        res["violations"].append({"prog": lim_lines[i], "deviation": f"limit: max_branches below the need must panic with the documented message, got `{run}`"})
+                elif kind == "maxthreads":
+                    if "self.threads.len() < self.max()" not in run:
+                        res["violations"].append({"prog": lim_lines[i], "deviation": f"limit: spawning beyond max_threads must panic, got `{run}`"})
+        st = fam.stats()
+        res["coverage"] = {
+            "programs": st["programs"] + (fam2.stats()["programs"] if fam2 else 0), "iterations": st["iterations"],
+            "api_calls_replayed": rstats.get("api_calls", 0), "control_placements": len(ctl), "frozen_checks": nfrozen,
+            "subset_checks": nsub, "limit_runs": nlim, "disagreements_checked": len(mism) + len(wm),
+            "evaluations": st["iterations"], "distinct_nontrivial": len({norm_prog(l) for l in lines + lim_lines}),
+            "rule": "every placement of stop_exploring/explore, skip_branch and explore under expect_explicit_explore in three base programs, the same programs without controls, misuse cases, and limit values need-1 / need for max_branches, max_threads, max_permutations x checkpoint_interval",
+            "samples": sample_programs(ctl) + lim_lines[:2], "outcomes": st["outcomes"],
+        }
+        ctx.cleanup()
+        return res
+
+    def replay(self, ctx, path):
+        print(open(path).read())
+        return 0
+
+
+def strip_ctl_key(key, line):
+    """Outcome key of a program with control calls -> key of the program without them
+    (drop the entries of the control instructions and renumber the pcs)."""
+    bodies = [[o.strip() for o in b.split(";") if o.strip()] for b in line.split("|")[3:]]
+    head, rest = key.split("|", 1)
+    out = []
+    for part in rest.split(";"):
+        if not part:
+            continue
+        b, items = part.split(":", 1)
+        b = int(b)
+        new = []
+        for it in items.split(","):
+            pc, r = it.split("=", 1)
+            pc = int(pc)
+            if bodies[b][pc] in ("ex", "sx", "sk"):
+                continue
+            npc = pc - sum(1 for o in bodies[b][:pc] if o in ("ex", "sx", "sk"))
+            new.append(f"{npc}={r}")
+        out.append(f"{b}:" + ",".join(new))
+    return head + "|" + ";".join(out)
+
+
+
+class C13:
+    level = "proof"
+    design_ref = "DESIGN.md section 8, C13"
+    technique = "Coq proof (Builder::check loop: records depend on the begin path only, resume = suffix, failing checkpoint reproduces the failure first) + kill/resume differential runs with real checkpoint files + repeat-run determinism"
+    level_text = ("Proved (CheckFacts): every record of a run is a function of its begin path; resuming from the begin path of iteration k, with any counter and checkpoint content, visits exactly "
+                  "the iterations k.. of the uninterrupted run with the same outcome (resume_is_suffix); with interval 1 the stored checkpoint of a failing run is the begin path of the failing "
+                  "iteration and reloading it fails first (failing_checkpoint_first). On the implementation: every program is run twice in one process and once in a second process (identical "
+                  "dumps), killed after k iterations for every k and several intervals and resumed from the real checkpoint file (the resumed dumps must be the suffix), and failing runs are reloaded.")
+    level_note = ("Trusted/modelled: serde round trip of the path (load(store p) = p is assumed by the model and exercised by the resume runs); HashMap iteration order of thread-locals is outside "
+                  "the programs used here.")
+    assumptions = ["programs are deterministic closures (no TLS destructors with loom-visible effects)",
+                   "tie: component replay of the resumed runs' Path API traces + whole-run correspondence of the uninterrupted runs"]
+
+    def run_one(self, ctx, line, extra, name):
+        import subprocess
+        f = os.path.join(ctx.dir, name + ".txt")
+        open(f, "w").write(line + "\n")
+        p = subprocess.run([corr.HARNESS, "run", f, "--cap", "3000"] + extra, capture_output=True, text=True, timeout=300, env=corr.clean_env())
+        return p.returncode, p.stdout
+
+    def run(self, ctx):
+        res = {"coverage": {}, "violations": [], "broken": [], "known": []}
+        base = gen.fam_bound_core("quick")[::7][:24] if ctx.tier == "quick" else gen.fam_bound_core("thorough")[::3][:120]
+        failing = [l for l in gen.fam_dead_core("quick") if l.startswith(("ddM", "ddH"))][:12]
+        rnd = gen.family_random(ctx.seed, 20 if ctx.tier == "quick" else 150, list("AMNH"), nthreads=(2, 3), maxops=3, prefix="c13r")
+        progs = base + rnd
+        # 1. determinism: the same family twice in one process, once more in another process
+        fam = FamilyRun(ctx, progs + progs, "c13a")
+        fam2 = FamilyRun(ctx, progs, "c13b")
+        wm = fam.whole_run_mismatches()
+        if wm:
+            m = wm[0]
+            res["broken"].append(f"correspondence L vs implementation: `{m.get('prog')}` iteration {m.get('iteration')}")
+        ndet = 0
+        n = len(progs)
+        for i in range(n):
+            if i in fam.impl and (n + i) in fam.impl and i in fam2.impl:
+                a = corr.strip_api(fam.impl[i]["lines"])
+                b = corr.strip_api(fam.impl[n + i]["lines"])
+                c = corr.strip_api(fam2.impl[i]["lines"])
+                ndet += 1
+                if a != b or a != c:
+                    k = 0
+                    while k < min(len(a), len(b)) and a[k] == b[k]:
+                        k += 1
+                    res["violations"].append({"prog": progs[i], "deviation": f"nondeterministic: repeated runs differ at line {k}"})
+        # 2. kill after k iterations, resume from the checkpoint file
+        nres = 0
+        replay_in = []
+        intervals = [1, 2, 3] if ctx.tier == "quick" else [1, 2, 3, 7]
+        for i, line in enumerate(progs):
+            if i not in fam.parsed or not (fam.parsed[i]["run"] or "").startswith("ok"):
+                continue
+            total = len(fam.parsed[i]["iterations"])
+            if total < 3:
+                continue
+            for ci in intervals:
+                lc = gen.with_cfg(line, ci=ci)
+                rc, full = self.run_one(ctx, lc, [], "full")
+                fbeg = [l for l in full.splitlines() if l.startswith(("BEGIN ", "END ", "O ", "RUN "))]
+                fits = parse_program_output(full.splitlines())["iterations"]
+                ks = sorted(set([1, 2, 3, total // 2, total - 1])) if ctx.tier == "quick" else range(1, min(total, 40))
+                for k in ks:
+                    if k < 1 or k >= total:
+                        continue
+                    ck = os.path.join(ctx.dir, "ck.json")
+                    if os.path.exists(ck):
+                        os.remove(ck)
+                    rc1, out1 = self.run_one(ctx, lc, ["--checkpoint", ck, "--stop-after", str(k)], "stop")
+                    if rc1 != 77:
+                        res["broken"].append(f"stop-after run of `{lc}` exited with {rc1}")
+                        continue
+                    if not os.path.exists(ck):
+                        # no boundary reached yet: resuming starts from scratch
+                        continue
+                    rc2, out2 = self.run_one(ctx, lc, ["--checkpoint", ck], "resume")
+                    replay_in.append(out2)
+                    rits = parse_program_output(out2.splitlines())
+                    nres += 1
+                    if not rits["iterations"]:
+                        res["violations"].append({"prog": lc, "deviation": f"resume after {k} iterations ran nothing", "k": k})
+                        continue
+                    first = rits["iterations"][0]["begin"]
+                    j = next((x for x, it in enumerate(fits) if it["begin"] == first), None)
+                    if j is None:
+                        res["violations"].append({"prog": lc, "deviation": f"resume after {k} iterations starts from a path the uninterrupted run never had", "k": k})
+                        continue
+                    want = [(it["begin"], it["end"], it["ops"]) for it in fits[j:]]
+                    got = [(it["begin"], it["end"], it["ops"]) for it in rits["iterations"]]
+                    if want != got:
+                        res["violations"].append({"prog": lc, "deviation": f"resume after {k} iterations (interval {ci}) does not visit the suffix of the uninterrupted run (starts at iteration {j + 1})", "k": k})
+                    # the checkpoint is the last boundary at or before the first unexecuted iteration
+                    if not (j <= k and j >= k - ci):
+                        res["violations"].append({"prog": lc, "deviation": f"resume after {k} iterations (interval {ci}) restarted at iteration {j + 1}, not at the last stored checkpoint", "k": k})
+        # 3. a stored checkpoint of a failing iteration reproduces the failure first
+        nfail = 0
+        for line in failing:
+            lc = gen.with_cfg(line, ci=1)
+            ck = os.path.join(ctx.dir, "ckf.json")
+            if os.path.exists(ck):
+                os.remove(ck)
+            rc1, out1 = self.run_one(ctx, lc, ["--checkpoint", ck], "fail1")
+            run1 = [l for l in out1.splitlines() if l.startswith("RUN ")]
+            if not run1 or not run1[0].startswith("RUN panic"):
+                continue
+            rc2, out2 = self.run_one(ctx, lc, ["--checkpoint", ck], "fail2")
+            run2 = [l for l in out2.splitlines() if l.startswith("RUN ")]
+            nfail += 1
+            cls1 = " ".join(run1[0].split()[3:])
+            if not run2 or not run2[0].startswith("RUN panic iters=1 ") or " ".join(run2[0].split()[3:]) != cls1:
+                res["violations"].append({"prog": lc, "deviation": f"reloading the checkpoint of a failing run does not reproduce the failure first: first run `{run1[0]}`, reloaded `{run2[0] if run2 else '?'}`"})
+        # component replay of the resumed runs
+        if replay_in:
+            f = os.path.join(ctx.dir, "replay.in")
+            with open(f, "w") as fh:
+                for t, out in enumerate(replay_in):
+                    fh.write(out)
+            out, code, err = corr.run_driver("replay", f)
+            mm = [l for l in out.splitlines() if l.startswith("MISMATCH")]
+            if mm or code != 0:
+                res["broken"].append("component replay of resumed runs: " + (mm[0] if mm else err[:200]))
+        st = fam.stats()
+        res["coverage"] = {
+            "programs": len(progs), "iterations": st["iterations"], "determinism_triples": ndet, "kill_resume_runs": nres,
+            "failing_checkpoint_reloads": nfail, "intervals": intervals, "disagreements_checked": len(wm),
+            "evaluations": ndet + nres + nfail, "distinct_nontrivial": len({norm_prog(l) for l in progs + failing}),
+            "rule": "sync/atomic core + seeded random programs; each run twice in one process and once in another; killed after k iterations (k around the start, middle, end; all k in the thorough tier) for checkpoint intervals 1,2,3(,7) and resumed from the real checkpoint file; failing runs reloaded",
+            "samples": sample_programs(progs),
+        }
+        ctx.cleanup()
+        return res
+
+    def replay(self, ctx, path):
+        print(open(path).read())
+        return 0
+
+
+
+class C06(OutcomeCheck):
+    kinds = ("missed-failure", "spurious-failure")
+    technique = "Coq proof (Builder::check control flow: first failure is the result, nothing runs after it, a normal return means no failure) + crash-point enumeration on the implementation with abort detection"
+    rule = "F-crash: a user panic inserted at every position of every thread of small programs over atomics, mutex, rwlock, channel, condvar, notify (so also while holding guards), each panicking program followed in the same process by the program without the panic"
+    level_text = ("Proved (CheckFacts): if any iteration fails, check returns that very failure, every earlier iteration finished, and nothing is executed afterwards; a normal return means every iteration "
+                  "finished (and, without max_permutations, that the exploration was exhausted); the next run starts from a state that depends on nothing but the program. Unwinding, destructors running "
+                  "during a panic, aborts and hangs are runtime behaviour the model cannot exhibit: they are observed on the implementation (each program runs in a monitored process; an abort or a hang is a violation).")
+    level_note = "partial by nature: the Coq part covers the control flow of Builder::check; process-level behaviour is decided by the crash-point runs"
+    ref_mode = "refw"
+    det_family = lambda self, ctx: gen.fam_crash_core(ctx.tier)
+    rnd_family = rnd("c06r", "AMRHN", nq=60, nt=600)
+
+
+class C16:
+    level = "proof"
+    design_ref = "DESIGN.md section 8, C16"
+    technique = "Coq proof (the state of an iteration is rebuilt from the program and the path only) + back-to-back and concurrent model runs in one process compared with the model's stand-alone prediction"
+    level_text = ("Proved (CheckFacts): init_exec depends on the path only, an iteration is a function of (program, path), records of different runs agree on equal begin paths. On the implementation: every "
+                  "program of a mixed family (finishing, deadlocking, leaking, panicking) is run twice, interleaved with the others, in one process, and again on four OS threads running models concurrently; "
+                  "each output must equal the model's stand-alone prediction (thread ids, object indices, clocks through the candidate sets, channel contents).")
+    level_note = "process-wide statics and real TLS are outside the model; they are covered by the back-to-back / concurrent runs only"
+    assumptions = ["the Coq theorems are about the model's Execution::new/step; the implementation's reset is validated by whole-run correspondence of every iteration of every run"]
+
+    def run(self, ctx):
+        import subprocess
+        res = {"coverage": {}, "violations": [], "broken": [], "known": []}
+        pool = (gen.fam_sync_core("quick")[::13] + gen.fam_dead_core("quick")[::9] + gen.fam_leak_core("quick")[::9] +
+                gen.fam_crash_core("quick")[::15] + gen.fam_arc_core("quick")[::40])
+        pool += gen.family_random(ctx.seed, 30 if ctx.tier == "quick" else 300, list("AMRCNHUK"), nthreads=(2, 3), maxops=3, prefix="c16r")
+        seq = []
+        for i in range(0, len(pool) - 1, 2):
+            seq += [pool[i], pool[i + 1], pool[i], pool[i + 1]]
+        fam = FamilyRun(ctx, seq, "c16seq")
+        wm = fam.whole_run_mismatches()
+        for m in wm[:3]:
+            # a program whose behaviour depends on what ran before it
+            res["violations"].append({"prog": m.get("prog"), "deviation": f"back-to-back run differs from the stand-alone prediction at iteration {m.get('iteration')}: impl `{str(m.get('impl'))[:120]}` expected `{str(m.get('model'))[:120]}`"})
+        # concurrent models
+        f = os.path.join(ctx.dir, "par.txt")
+        open(f, "w").write("\n".join(pool) + "\n")
+        p = subprocess.run([corr.HARNESS, "par", f, "--cap", "3000"], capture_output=True, text=True, timeout=900, env=corr.clean_env())
+        npar = 0
+        if p.returncode != 0:
+            res["violations"].append({"prog": "(concurrent run of the pool)", "deviation": f"the process running four models concurrently died: exit {p.returncode} {p.stderr[-200:]}"})
+        else:
+            par = corr.split_progs(p.stdout)
+            out, code, err = corr.run_driver("run", f)
+            mp = corr.split_progs(out)
+            for i in sorted(par):
+                hl = corr.strip_api(par[i]["lines"])
+                if hl and ("badprog" in hl[-1] or hl[-1].endswith(" capped")):
+                    continue
+                npar += 1
+                ml = mp.get(i, {"lines": []})["lines"]
+                if hl != ml:
+                    k = 0
+                    while k < min(len(hl), len(ml)) and hl[k] == ml[k]:
+                        k += 1
+                    res["violations"].append({"prog": pool[i], "deviation": f"concurrent run differs from the stand-alone prediction: impl `{(hl[k] if k < len(hl) else '<end>')[:120]}` expected `{(ml[k] if k < len(ml) else '<end>')[:120]}`"})
+        if fam.aborts:
+            res["violations"].append({"prog": fam.aborts[0]["prog"], "deviation": "abort:" + fam.aborts[0]["crash"]})
+        st = fam.stats()
+        res["coverage"] = {
+            "programs": st["programs"] + npar, "iterations": st["iterations"], "back_to_back_runs": st["programs"], "concurrent_runs": npar,
+            "disagreements_checked": len(wm), "evaluations": st["programs"] + npar, "distinct_nontrivial": len({norm_prog(l) for l in pool}),
+            "rule": "mixed pool (finishing, deadlocking, leaking, panicking programs over all object kinds + seeded random); sequence A,B,A,B in one process; the pool on 4 OS threads concurrently; each output compared with the model's stand-alone run",
+            "samples": sample_programs(pool), "outcomes": st["outcomes"],
+        }
+        ctx.cleanup()
+        return res
+
+    def replay(self, ctx, path):
+        print(open(path).read())
+        return 0
+
+
 HOOK_COMMITS = ["8f72140"]
 FIX_COMMITS = ["4a97b3f", "e9415b5", "1d4f62f", "36c0d26", "7942235", "13413be", "756d098"]
 NOT_CLAIMED = {}
 REGISTRY = {"C14": C14(), "C01": C01(), "C05": C05(), "C07": C07(), "C08": C08(), "C09": C09(),
-            "C10": C10(), "C11": C11(), "C18": C18(), "C12": C12()}
+            "C10": C10(), "C11": C11(), "C18": C18(), "C12": C12(), "C15": C15(), "C19": C19(), "C13": C13(), "C06": C06(), "C16": C16()}
